@@ -25,7 +25,7 @@
 EXTENDS Integers, Sequences, FiniteSets, TLC
 
 VARIABLES
-    pc,      \* "ctor" | "ready" | "reweighted" | "trained" | "resampled" | "mutating" | "mutated" | "done"
+    pc,      \* "ctor" | "ready" | "reweighted" | "trained" | "resampled" | "mutating" | "mutated" | "done" | "dead" (process died)
     cfg,     \* configuration record (constant during a behaviour), see CfgOK
     iter,    \* iteration counter (state key "iter")
     beta,    \* inverse temperature as an order rank / grid point; 0 is beta = 0.0, cfg.one is beta = 1.0
@@ -253,6 +253,27 @@ TerminateU(o) ==
     /\ UNCHANGED <<cfg, iter, beta, ess, wts, calls, evals, cur, hist, clus, modes, nsw>>
 Terminate(o) == pc = "ready" /\ hist # <<>> /\ All(TM_Clauses(o)) /\ TerminateU(o)
 
+\* ---- Checkpoints.  At this level a save is atomic (Checkpoint.tla refines it into IO steps and shows that a crash
+\* leaves the old or the new snapshot); a resume happens in a freshly constructed sampler of a new process:
+\* everything that was saved is restored exactly, the clusterer and the proposal modes are NOT part of a checkpoint.
+Snap == [iter |-> iter, beta |-> beta, calls |-> calls, ess |-> ess, logz |-> logz, wts |-> wts, cur |-> cur, hist |-> hist]
+
+ResumeU(s) ==
+    /\ pc' = "ready"
+    /\ iter' = s.iter /\ beta' = s.beta /\ calls' = s.calls /\ ess' = s.ess /\ logz' = s.logz /\ wts' = s.wts
+    /\ cur' = s.cur /\ hist' = s.hist
+    /\ evals' = s.calls                       \* ghost: the new process has evaluated nothing yet; counting continues from the restored value
+    /\ clus' = [fitted |-> FALSE, K |-> 0] /\ modes' = <<>> /\ nsw' = 0
+    /\ UNCHANGED cfg
+
+\* code-shaped variant (pinned tree before 7a4bec0): the loaded dictionary is discarded, only the counters' defaults are set
+ResumeNothingU(s) ==
+    /\ pc' = "ready"
+    /\ iter' = 0 /\ beta' = 0 /\ calls' = 0 /\ ess' = 0 /\ logz' = 0 /\ wts' = 0 /\ cur' = <<>> /\ hist' = <<>>
+    /\ evals' = 0
+    /\ clus' = [fitted |-> FALSE, K |-> 0] /\ modes' = <<>> /\ nsw' = 0
+    /\ UNCHANGED cfg
+
 -----------------------------------------------------------------------------
 (* State invariants and action properties of the system (checked by TLC on  *)
 (* the bounded model MC_PSRun and, through the clauses, on recorded traces). *)
@@ -264,10 +285,11 @@ CurCoherent  == pc \in {"mutating", "mutated"} => \A i \in DOMAIN cur : Coherent
 \* C05: the schedule recorded in the history is monotone and bounded
 HistBetaMonotone == \A s, t \in DOMAIN hist : s <= t => hist[s].beta <= hist[t].beta
 BetaBounded      == beta >= 0 /\ beta <= cfg.one
-BetaMonotoneStep == [][beta' >= beta \/ pc = "ctor"]_vars
+\* (a resume in a new process loads an earlier checkpoint: the only step that may go back)
+BetaMonotoneStep == [][beta' >= beta \/ pc = "ctor" \/ pc = "dead"]_vars
 
 \* C17: history is append-only, one batch per iteration
-AppendOnlyStep == [][pc # "ctor" => (Len(hist') >= Len(hist) /\ SubSeq(hist', 1, Len(hist)) = hist)]_vars
+AppendOnlyStep == [][pc \notin {"ctor", "dead"} => (Len(hist') >= Len(hist) /\ SubSeq(hist', 1, Len(hist)) = hist)]_vars
 OneBatchPerIteration == pc = "ready" => Len(hist) = iter
 HistIters == \A t \in DOMAIN hist : hist[t].iter = t
 
